@@ -58,8 +58,18 @@ def g_worker(task):
 
 def ct_worker(task):
     ctx = get_ctx()
-    r = provrun.run(task, RED, inplace=False, frozen=True, initializing=False, deepcopy_mode="inline",
-                    setattr_mode="inline", configure=_unstub_invalidate, alias=True)
+    from ..state import Budget
+    alias = "transform" in task[0].lower()          # callbacks that may hand back their argument
+    try:
+        r = provrun.run(task, RED, inplace=False, frozen=True, initializing=False, deepcopy_mode="inline",
+                        setattr_mode="inline", configure=_unstub_invalidate, alias=alias)
+    except Budget:
+        if not alias:
+            raise
+        # the aliasing refinement multiplies states; fall back to the plain provenance run for this task
+        r = provrun.run(task, RED, inplace=False, frozen=True, initializing=False, deepcopy_mode="inline",
+                        setattr_mode="inline", configure=_unstub_invalidate, alias=False)
+        r["alias_fallback"] = True
     viols, raises = [], []
     for p in r["paths"]:
         for e in p["trace"]:
